@@ -167,6 +167,11 @@ def culprit_diff(spec, kf, variant):
 
 def report_exc(v, e, spec, kf, kfname, value, where="to_hashable"):
     tag, ce = culprit_exc(spec, kf, type(e))
+    if isinstance(e, NoKey):
+        v.bad(f"no-key:try_to_hashable-returned-UnhashableError/{tag}",
+              f"{kfname} (unhashable_action='ignore') gave no key for a supported value",
+              value=M.pyrepr(value)[:600], key_function=kfname)
+        return
     v.bad(exc_sig(ce if ce is not None else e, "exc") + f"/{tag}", f"{kfname} raised instead of returning a key: {exc_msg(e)}",
           value=M.pyrepr(value)[:600], key_function=kfname)
 
@@ -558,7 +563,7 @@ def run_memo(desc):
                         k2, e2 = get_key(to_hashable, ox)
                         if e1 is None and e2 is None and keys_equal(k1, k2)[0]:
                             cause = "key-collision"
-                    v.bad(f"stale-hit/{rel}/{cause}",
+                    v.bad(f"stale-hit/{rel}/{cause}" if cause == "key-collision" else f"stale-hit/{cause}",
                           f"memoize ({cname}) returned the result stored for a different argument",
                           argument=M.pyrepr(x)[:500], stored_for=None if ox is None else M.pyrepr(ox)[:500],
                           returned=str(r)[:300], direct_result=expect[:300], cache=cname)
